@@ -57,6 +57,12 @@ func (k Keeper) BridgeCallHandler(ctx sdk.Context, msg *types.MsgBridgeCallClaim
 			},
 		)
 	}
+	// the bridged coins were credited to the receiver, the refund call spends them from the refund address
+	if refundAddr := msg.GetRefundAddr(); !bytes.Equal(refundAddr.Bytes(), receiverAddr.Bytes()) {
+		if err = k.bankKeeper.SendCoins(ctx, receiverAddr.Bytes(), refundAddr.Bytes(), baseCoins); err != nil {
+			return err
+		}
+	}
 	return k.BridgeCallFailedRefund(ctx, msg.GetRefundAddr(), baseCoins, msg.EventNonce)
 }
 
